@@ -1734,8 +1734,12 @@ fn l6_check(s: &mut Sink, eng: Eng) {
     let fixed = VmKind::Fixed(0x40, 0x50);
     // `clobber`: having computed its result, the program overwrites the two pointer slots (and a third
     // slot) of the fixed VM's buffer: the next execution must find fresh pointers there all the same
-    for (kind, clobber) in [(fixed, false), (VmKind::Raw, false), (VmKind::Mbuff, false), (fixed, true), (VmKind::Fixed(0, 8), true)] {
+    // Fixed(0x4c, 0x50) is the __sk_buff layout the VM's own documentation names: the two 8-byte slots
+    // overlap by four bytes, the interpreter writes data first and data_end second, and a program that
+    // reads the two 32-bit halves gets the low halves of both pointers (their difference is the length)
+    for (kind, clobber) in [(fixed, false), (VmKind::Raw, false), (VmKind::Mbuff, false), (fixed, true), (VmKind::Fixed(0, 8), true), (VmKind::Fixed(0x4c, 0x50), false)] {
         let prog: Vec<I> = match kind {
+            VmKind::Fixed(0x4c, 0x50) => vec![I::new(0x61, 2, 1, 0x4c, 0), I::new(0x61, 0, 1, 0x50, 0), I::new(0x1c, 0, 2, 0, 0), isa::EXIT],
             VmKind::Fixed(a, b) => vec![
                 isa::ldxdw(2, 1, a as i16), isa::ldxdw(3, 1, b as i16), isa::mov64r(0, 3), I::new(0x1f, 0, 2, 0, 0), I::new(0x67, 0, 0, 0, 8),
                 isa::ldxb(4, 3, -1), I::new(0x4f, 0, 4, 0, 0), isa::EXIT,
